@@ -75,11 +75,13 @@ LISTED_BY = {
 
 
 def is_listed(strategy, name):
-    if strategy is None or name in ('ok', 'ok_empty', 'notif_reply_listed'):
+    if strategy is None or name in ('ok', 'ok_empty', 'notif_reply_listed', 'elem_listed'):
         return False
     kind, what = LISTED_BY[name]
     if kind == 'code':
         codes = cr.CODESETS[strategy['codes']]
+        if strategy['codes'] == 'zero':
+            return name in ('code_listed', 'level_listed')       # the listed code is 0 in these configurations
         return bool(codes) and what in codes
     excs = cr.EXCSETS[strategy['excs']]
     return bool(excs) and any(issubclass(what, e) for e in excs)
@@ -119,12 +121,19 @@ def final_matches(cfg, obs, name, k):
         if rk == 'batch':
             return kind == 'ok' and v == ({'attempt': k, 'id': 1}, {'attempt': k, 'id': 2})
         return kind == 'ok' and v == {'attempt': k, 'id': 1}
+    if name == 'elem_listed':
+        # a response array is an answered batch whatever its elements say: batch.call raises the element's error, nothing is re-sent
+        if via_send:
+            return kind == 'ok' and isinstance(v, BatchResponse) and v[0].is_error and v[0].error.code == cr.C1
+        return kind == 'exc' and isinstance(v, JsonRpcError) and v.code == cr.C1 and v.message == 'attempt %d' % k
     if name in ('notjson', 'notresp', 'identity'):
         # the attempt ended in an exception raised by the client while reading the answer
         from pjrpc.common.exceptions import DeserializationError, IdentityError
         want_cls = {'notjson': ValueError, 'notresp': DeserializationError, 'identity': IdentityError}[name]
         return kind == 'exc' and isinstance(v, want_cls)
     code = LISTED_BY[name][1]
+    if cfg.get('zero_code') and name in ('code_listed', 'level_listed'):
+        code = 0
     if via_send:
         if kind != 'ok' or not v.is_error:
             return False
@@ -199,6 +208,8 @@ def gen_cases(ctx):
     # (A) outcome trees
     for n in range(0, N + 1):
         for codes, excs in itertools.product(cr.CODESETS, cr.EXCSETS):
+            if codes == 'zero':
+                continue          # code 0 has its own configurations below
             for rk in ('single', 'batch', 'notification', 'notifbatch'):
                 for kind in ('sync', 'async'):
                     drop = []
@@ -228,10 +239,28 @@ def gen_cases(ctx):
         ('override-more', S(1), S(2, b=dict(family='periodic', interval=0.25))),
         ('override-less', S(2), S(0)), ('override-codes', S(2, codes='one'), S(2, codes='empty', excs='empty')),
         ('disabled', S(2), None),
+        # the per-request strategy lists codes only / exceptions only: it REPLACES the client-wide one, nothing is merged in
+        ('request-codes-only', S(2, codes='none', excs='one'), S(2, codes='one', excs='none')),
+        ('request-excs-only', S(2, codes='one', excs='none'), S(2, codes='none', excs='one')),
     ]
     for n in (0, 1, 2):
         for strategy in (True, False):
             yield dict(part='F', attempts=n, strategy=strategy)
+    for kind in ('sync', 'async'):
+        for n in (1, 2):
+            # the listed code is 0; a batch answered with an array in which one call failed with a listed code
+            for rk in ('single', 'batch'):
+                yield dict(part='A', kind=kind, request=rk, via='call', zero_code=True, drop=['code_listed2', 'level_listed2', 'exc_listed2', 'exc_sub'],
+                           client_strategy=dict(attempts=n, codes='zero', excs='one', backoff=PERIODIC))
+            for via in ('call', 'send'):
+                yield dict(part='A', kind=kind, request='batch', via=via, elem_errors=True, drop=['code_listed2', 'level_listed2', 'exc_listed2', 'exc_sub', 'exc_unlisted', 'level_unlisted'],
+                           client_strategy=dict(attempts=n, codes='one', excs='one', backoff=PERIODIC))
+        # attempts that take (virtual) time themselves: the pauses are the same
+        for spec in (PERIODIC, dict(family='exponential', base=1.0, factor=2.0)):
+            for n in (1, 2, 3):
+                yield dict(part='B', kind=kind, request='single', via='call', attempt_takes=100.0,
+                           drop=['code_listed2', 'exc_listed2', 'exc_sub', 'exc_unlisted', 'code_unlisted'],
+                           client_strategy=dict(attempts=n, codes='one', excs='one', backoff=spec))
     yield from gen_repeat(ctx)
     # (E) failures raised by the client itself while reading the answer (not JSON, not a response, identity mismatch) are attempts
     #     that ended in an exception like any other: re-sent iff the exception type is listed
